@@ -675,6 +675,12 @@ class Bf3File:
                 )
             bf3tag_type, hwcid, bf3tag_fmt, interface = BF2_TAGTYPE_MAP[fwtagtype]
             if bf3tag_type is None:
+                if "REBOOT" in bf2_instrs:
+                    # the ignored section was closed by its REBOOT: its
+                    # instructions and data end here
+                    for name in ("REBOOT", "CRC", "CHECK_FWVER"):
+                        bf2_instrs.pop(name, None)
+                    bf2_fwdata[:] = []
                 return
             desc = {
                 BF3TAG.FMT: bf3tag_fmt.to_bytes(1, "big"),
